@@ -46,6 +46,14 @@ func applyTrailers(expr ast.Expr, trailers []ast.Expr) ast.Expr {
 	return expr
 }
 
+// Check that an unparenthesised generator expression is the sole
+// argument of a call. gens is the number of them in call.Args
+func checkGenArgs(yylex yyLexer, call *ast.Call, gens int) {
+	if gens > 1 || (gens != 0 && (len(call.Args) > gens || len(call.Keywords) != 0)) {
+		yylex.(*yyLex).SyntaxError("Generator expression must be parenthesized if not sole argument")
+	}
+}
+
 // Set the context for expr
 func setCtx(yylex yyLexer, expr ast.Expr, ctx ast.ExprContext) {
 	// Check the elements of compound targets here: their SetCtx
@@ -144,6 +152,7 @@ func setCtxs(yylex yyLexer, exprs []ast.Expr, ctx ast.ExprContext) {
 	arg		*ast.Arg
 	args		[]*ast.Arg
 	arguments	*ast.Arguments
+	gens		int		// number of unparenthesised generator expression arguments
 }
 
 %type <obj> strings
@@ -1857,6 +1866,7 @@ arguments:
 	argument
 	{
 		$$ = $1
+		$<gens>$ = $<gens>1
 	}
 |	arguments ',' argument
 	{
@@ -1865,31 +1875,37 @@ arguments:
 		}
 		$$.Args = append($$.Args, $3.Args...)
 		$$.Keywords = append($$.Keywords, $3.Keywords...)
+		$<gens>$ += $<gens>3
 	}
 
 optional_arguments:
 	{
 		$$ = &ast.Call{}
+		$<gens>$ = 0
 	}
 |	arguments ','
 	{
 		$$ = $1
+		$<gens>$ = $<gens>1
 	}
 
 arguments2:
 	{
 		$$ = &ast.Call{}
+		$<gens>$ = 0
 	}
 |	arguments2 ',' argument
 	{
 		$$.Args = append($$.Args, $3.Args...)
 		$$.Keywords = append($$.Keywords, $3.Keywords...)
+		$<gens>$ += $<gens>3
 	}
 
 arglist:
 	arguments optional_comma
 	{
 		$$ = $1
+		checkGenArgs(yylex, $$, $<gens>1)
 	}
 |	optional_arguments '*' test arguments2
 	{
@@ -1899,6 +1915,7 @@ arglist:
 			yylex.(*yyLex).SyntaxError("only named arguments may follow *expression")
 		}
 		call.Keywords = append(call.Keywords, $4.Keywords...)
+		checkGenArgs(yylex, call, $<gens>1 + $<gens>4)
 		$$ = call
 	}
 |	optional_arguments '*' test arguments2 ',' STARSTAR test
@@ -1910,12 +1927,14 @@ arglist:
 			yylex.(*yyLex).SyntaxError("only named arguments may follow *expression")
 		}
 		call.Keywords = append(call.Keywords, $4.Keywords...)
+		checkGenArgs(yylex, call, $<gens>1 + $<gens>4)
 		$$ = call
 	}
 |	optional_arguments STARSTAR test
 	{
 		call := $1
 		call.Kwargs = $3
+		checkGenArgs(yylex, call, $<gens>1)
 		$$ = call
 	}
 
@@ -1926,6 +1945,7 @@ argument:
 	{
 		$$ = &ast.Call{}
 		$$.Args = []ast.Expr{$1}
+		$<gens>$ = 0
 	}
 |	test comp_for
 	{
@@ -1933,6 +1953,7 @@ argument:
 		$$.Args = []ast.Expr{
 			&ast.GeneratorExp{ExprBase: ast.ExprBase{Pos: $<pos>$}, Elt: $1, Generators: $2},
 		}
+		$<gens>$ = 1
 	}
 |	test '=' test  // Really [keyword '='] test
 	{
@@ -1943,6 +1964,7 @@ argument:
 		} else {
 			yylex.(*yyLex).SyntaxError("keyword can't be an expression")
 		}
+		$<gens>$ = 0
 	}
 
 comp_iter:
